@@ -185,10 +185,25 @@ func (vc *VC) storeLoc(h *Heap, l *Loc, v string) {
 func (vc *VC) fieldOf(st types.Type, idx int, ref string) Val {
 	s := structOf(st)
 	ft := s.Field(idx).Type()
+	pfx, private := vc.localPrefix[ref]
 	if kindOf(ft) == KStruct {
-		return Val{K: KRef, T: vc.embRef(st, idx, ref), Typ: types.NewPointer(ft)}
+		sub := vc.embRef(st, idx, ref)
+		if private {
+			vc.localPrefix[sub] = pfx + "." + s.Field(idx).Name()
+		}
+		return Val{K: KRef, T: sub, Typ: types.NewPointer(ft)}
 	}
 	comp, _ := vc.fieldComp(st, idx)
+	if private {
+		// field of a non-escaping local struct variable: private component
+		// (cannot alias any heap object)
+		pc := "L$" + pfx + "$" + s.Field(idx).Name()
+		vc.compDecl(pc, vc.compSort[comp])
+		if r, ok := vc.w.compRange[comp]; ok {
+			vc.w.compRange[pc] = r
+		}
+		comp = pc
+	}
 	return Val{K: KPtr, Typ: types.NewPointer(ft), Loc: &Loc{Comp: comp, Sort: vc.scalarSort(ft), Idx: ref}}
 }
 
